@@ -716,7 +716,7 @@ func c09RawContentClean(content, lname string, script bool) bool {
 		isLetter := k < len(lc) && lc[k] >= 'a' && lc[k] <= 'z'
 		isEndTag := k >= len(lc) || c09IsWS(lc[k]) || lc[k] == '/' || lc[k] == '>'
 		if script && !isLetter && !isEndTag {
-			// "</script-x": not an end tag, but inside a "<!--" section the lexer still stops there (known finding)
+			// "</script-x" inside a "<!--" section: not an end tag (fixed 26dd3a3), but keep generated content simple
 			pre := lc[:i+j]
 			if open := strings.LastIndex(pre, "<!--"); open >= 0 && strings.LastIndex(pre, "-->") < open {
 				return false
@@ -962,7 +962,7 @@ var c09Tricky = []string{
 	"a<b", "a< b", "a<", "a<1", "<a>\x00</a>", "\x00", "a\x00<b>\x00</b>", "<a\x00b=c\x00>", "</a\x00>", "<a b='\x00'>", "</\x00", "</\x00>", "<\x00",
 	"</A B=C>", "</A X=Y \f>", "</Ab/Cd>", "</A\tB='C D'/>", "</a\f>", "</a \f >", "</a\f", "</A", "</AB>", "</", "<A B=C>",
 	"<title>a</title-x>b</title", "<title>a</title", "<title>a</title/>", "<title>a</title\f>", "<title>a</TITLE\n>", "<title></title1></title>", "<title></title=></title >",
-	"<script><!--a</script-x>b--></script>c", "<script><!--<script></script-x></script>", "<style></style\x00></style>", "<xmp></xmp\x00", "<a B>", "</a\r>", "</a\f>", "</a \t\n\r>", "<a\fb\f=\fc\f>", "<a b='c'\f/>",
+	"<script><!--a</script-x>b--></script>c", "<script><!--<script></script-x></script>", "<script><!--<script-x></script>b--></script>c", "<script><!--<SCRIPT\f></script/></script>", "<script><!--<script", "<style></style\x00></style>", "<xmp></xmp\x00", "<a B>", "</a\r>", "</a\f>", "</a \t\n\r>", "<a\fb\f=\fc\f>", "<a b='c'\f/>",
 	"{{x}}", "a{{x}}b", "{{", "{{\"}}\"}}", "{{'\\'}}'}}", "{{\"\\\\\"}}", "<a{{x}}>", "<a {{x}}={{y}}>", "<a b={{y}}{{z}}c>", "<a b=\"{{\"}}\"{{x}}>", "<a b='c'{{x}}>", "<script>{{\"</script>\"}}</script>",
 	"<%x%>", "a<%x%>b", "<a<%x%>>", "<a b=<%x%>>", "<script><%\"</script>\"%></script>", "<?x?>", "a<?x?>b", "<a <?x?>>", "<!--{{x}}-->", "</a{{x}}>", "<svg>{{x}}</svg>",
 }
